@@ -62,6 +62,10 @@ CLAIMED = {
    text="Only the sufficient condition the property's own mechanism names - shared definitions are never written after initialisation - is decided: the merge helpers (TagSet.Merge, CorrectionDefinition.Merge, Extensions.Merge, ScenarioSet.Merge) are executed symbolically on frozen operands over every combination of list length, spare capacity, duplicates and flags (any store into an operand, including its slices' spare capacity, is an event; aliasing is asserted through two merges from one receiver), and Invoice.supportedTags / correctionDef / scenarioSummary are run on the real regime and addon definitions of four regimes with those definitions frozen. Counterexamples are confirmed natively by comparing deep dumps of the operands.",
    note="Interleavings, the race detector, result equivalence under contention and bulk request/response pairing are outside: goroutines and channels are not encoded and a solver adds nothing to schedule enumeration. Defects found and fixed: a6924ab, 334da12.",
    ref="DESIGN.md 5 (C15)"),
+ "C16": dict(
+   text="Invoice-level correction and replication logic, decided by symbolic execution with z3 path feasibility over every combination of regime (none, ES, MX, PL, GR - real correction definitions imported from the registry), correction type option (none/credit/debit/corrective), reason, stamps (none / required / other provider, passed explicitly or through the source header), series, issue date and extension options, with symbolic code/series/identifier strings: Correct is refused unless the source has a code, a type is requested that the regime allows, the reason is present when required and every required stamp is supplied; when accepted the result has no code and no identifier, the requested type, and exactly one preceding reference carrying the source's identifier, type, series, code, issue date, the reason and the required stamps; the source value handed to Clone is untouched; a replica has no identifier / code and fresh dates.",
+   note="Stubs: the final recalculation inside Correct (success), the clock. Outside: fidelity of schema.Object.Clone (JSON round trip by reflection), envelope-level header/signature immutability, CLI/bulk parsing, addon-specific definitions.",
+   ref="DESIGN.md 5 (C16)"),
 }
 
 NA = {
